@@ -132,12 +132,6 @@ func c03Invariants(l CfgLit, req vlib.Req, h http.Header, status int) *vlib.Fail
 			return vlib.Failf("Access-Control-Allow-Private-Network is %q (PNA enabled: %t)", v, l.PNA || l.PNANoCORS)
 		}
 	}
-	// exposing headers / max-age must accompany (only) granted responses
-	if !isPreflight && len(acao) == 1 && expectedACEH(l) != "" {
-		if _, ok := h["Access-Control-Expose-Headers"]; !ok {
-			return vlib.Failf("granted non-preflight response lacks the configured Access-Control-Expose-Headers")
-		}
-	}
 	return nil
 }
 
